@@ -360,3 +360,67 @@ Proof.
   exists [[]; [0]], (mkS (Some 1) 2 [(0, 1)]), (mkT [1] []), (mkS (Some 1) 2 [(0, 1)]).
   repeat split; reflexivity.
 Qed.
+
+(* ---- the round trip in a bound branch, with --local ------------------------------------ *)
+
+Lemma filter_none {A} (f : A -> bool) (l : list A) :
+  forallb (fun x => negb (f x)) l = true -> filter f l = [].
+Proof.
+  induction l as [|x l IH]; cbn; intros H; [reflexivity|].
+  apply andb_true_iff in H as [H1 H2]. apply negb_true_iff in H1. rewrite H1. apply IH. exact H2.
+Qed.
+
+Lemma delete_no_names tags : delete_names [] tags = tags.
+Proof. unfold delete_names. apply filter_all. induction tags as [|x l IH]; [reflexivity | exact IH]. Qed.
+
+Lemma nothing_removed g ps tags : wf_dag (g ++ [ps]) = true ->
+  forallb (fun nr => negb (snd nr =? length g)) tags = true ->
+  filter (fun nr => removed_tag (g ++ [ps]) (Some (length g)) ps nr) tags = [].
+Proof.
+  intros W' T. apply filter_none. rewrite forallb_forall in T. apply forallb_forall.
+  intros nr Hnr. specialize (T nr Hnr). apply negb_true_iff in T. apply Nat.eqb_neq in T.
+  apply negb_true_iff. unfold removed_tag. apply memb_false. intros H.
+  apply T. apply (only_new_is_unique g ps _ W' H).
+Qed.
+
+(* commit(local=True) then uncommit(local=True) in a bound branch whose master [mb]
+   is anywhere (at the old tip, or behind it after earlier local commits):
+   branch, tree and master are all exactly what they were *)
+Theorem local_uncommit_commit_id g ps tipb n tags files keep mb :
+  wf_dag g = true -> fresh_next g = true -> valid_parents g ps = true ->
+  tipb = hd_error ps ->
+  match ps with p :: _ => p < length g | [] => True end ->
+  filter_parents g ps = ps ->
+  forallb (fun nr => negb (snd nr =? length g)) tags = true ->
+  let b := mkS tipb n tags in
+  let t := mkT ps files in
+  uncommit (commit_graph g t) (commit_branch g b) (Some (commit_tree g t)) (Some mb) n keep true
+  = Ok (b, Some t, Some mb).
+Proof.
+  intros W F V Hup Hpres Hfp Htags b t.
+  assert (W' : wf_dag (g ++ [ps]) = true) by (apply wf_extend; assumption).
+  unfold commit_graph, commit_branch, commit_tree, b, t. cbn [tparents tfiles tip revno tagd].
+  unfold uncommit. cbn [negb option_map tparents tip revno tagd].
+  unfold plan. cbn [tip revno lefthand_opt tl].
+  rewrite (walk_after_commit g ps n W F V Hpres).
+  rewrite parents_back.
+  rewrite set_parent_ids_ok.
+  - cbn [tfiles tag_step].
+    rewrite (filter_parents_heads (g ++ [ps]) g ps (heads_extend g ps ps W W' F (ps_not_new g ps V))), Hfp.
+    rewrite (tags_survive g ps tags W' Htags), (nothing_removed g ps tags W' Htags).
+    cbn [map]. rewrite delete_no_names. subst tipb. destruct mb as [mt mr mtags].
+    cbn [tip revno tagd]. destruct keep; reflexivity.
+  - destruct ps as [|p l]; [exact I|]. unfold ghost, present. apply negb_false_iff. apply Nat.ltb_lt.
+    rewrite app_length. cbn. lia.
+Qed.
+
+(* the mixed sequence: a non-local uncommit of a local commit is refused *)
+Theorem local_commit_nonlocal_uncommit_refused g b t mb k keep :
+  tip mb <> Some (length g) ->
+  uncommit (commit_graph g t) (commit_branch g b) (Some (commit_tree g t)) (Some mb) k keep false
+  = Err BoundBranchOutOfDate.
+Proof.
+  intros H. apply bound_out_of_date. unfold commit_branch. cbn [tip].
+  destruct (tip mb) as [x|]; cbn; [|reflexivity].
+  apply Nat.eqb_neq. intros E. apply H. rewrite E. reflexivity.
+Qed.
